@@ -1,6 +1,7 @@
 import VermouthProofs.C05_Order
 import VermouthProofs.C05_Match
 import VermouthProofs.C05_Table
+import VermouthProofs.C05_Replace
 /-!
 # C05 — links are applied at exactly the places where they fit
 
@@ -148,6 +149,46 @@ it is when that link is applied. -/
 theorem nothing_unjustified (m : Mol) (links : List Link) (given : List (List Map)) (e : String × Inter)
     (h : e ∈ (applyLinks m links given).inters) : e ∈ m.inters ∨ JustifiedFrom (m, []) links given e :=
   C05.nothing_unjustified m links given e h
+
+/-! ### attribute replacement and node removal -/
+
+/-- `replace` has taken effect: after the update node `k` carries, for every key of the `replace`
+dictionary, the (last) value given there and its old value for every other key; no other node changes. -/
+theorem replace_takes_effect (m : Mol) (hk : m.keys.Nodup) (k : Int) (new : Attrs) (k' : Int) (key : String) :
+    ((m.setAttrs k new).attrsOf k' = if k' = k ∧ k ∈ m.keys then aupdate (m.attrsOf k) new else m.attrsOf k')
+    ∧ (aupdate (m.attrsOf k) new).lookup key =
+        (match new.reverse.lookup key with
+         | some v => some v
+         | none => (m.attrsOf k).lookup key) :=
+  ⟨setAttrs_attrsOf m hk k new k', lookup_aupdate _ _ _⟩
+
+/-- a node is put on the removal list exactly by a `replace` with `atomname: null` of a placed link node -/
+theorem removal_marked (mp : Map) (ns : List LNode) (s : Mol × List Int) (x : Int) :
+    x ∈ (applyReplace mp ns s).2 ↔
+      x ∈ s.2 ∨ ∃ n ∈ ns, ∃ r, n.replace = some r ∧ removesNode r = true ∧ x = Map.toFun mp n.key := by
+  constructor
+  · exact applyReplace_marks_only mp ns s x
+  · rintro (h | ⟨n, hn, r, h1, h2, rfl⟩)
+    · induction ns generalizing s with
+      | nil => exact h
+      | cons a rest ih =>
+        obtain ⟨m, rm⟩ := s
+        simp only [applyReplace]
+        split
+        · exact ih _ h
+        · split
+          · apply ih; simp at h ⊢; exact Or.inl h
+          · exact ih _ h
+    · exact applyReplace_marks mp ns s n r hn h1 h2
+
+/-- after a link was applied every node on the removal list is gone, with its bonds and with every
+interaction that mentions it -/
+theorem removed_nodes_gone (l : Link) (s : Mol × List Int) (ps : List Map) (k : Int)
+    (hk : k ∈ (applyLinkWith l s ps).2) :
+    k ∉ (applyLinkWith l s ps).1.keys
+    ∧ (∀ e ∈ (applyLinkWith l s ps).1.edges, e.1 ≠ k ∧ e.2 ≠ k)
+    ∧ (∀ e ∈ (applyLinkWith l s ps).1.inters, k ∉ e.2.atoms) :=
+  C05.removed_nodes_gone l s ps k hk
 
 /-- the run with exceptions agrees with the total one whenever nothing raises -/
 theorem applyLinksE_eq (m : Mol) (links : List Link) (given : List (List Map)) (r : Mol)
